@@ -485,6 +485,9 @@ def cases(rng, tier, shard, nshards):
     if shard == 0:
         yield from corpus()
     n = {"quick": 200, "thorough": 1100}[tier]
+    for _ in range(4):      # the history surface first: it must not depend on how far the time budget lets the stream run
+        yield EDITED, {"template": gen_template(rng, cat, small=True), "template2": gen_template(rng, cat, small=True),
+                       "resolve": rng.random() < 0.3, "drop": rng.random() < 0.5}
     for k in range(n):
         r = k % 8
         if r == 3:
